@@ -6,6 +6,7 @@ package props
 
 import (
 	"fmt"
+	"strings"
 	"testing"
 	"time"
 
@@ -23,7 +24,7 @@ import (
 )
 
 type c09cOp struct {
-	K   string `json:"k"` // request | end | activate
+	K   string `json:"k"` // request | end | activate | tries (governance sets SamplingTryCount to Ask)
 	Ask int    `json:"ask,omitempty"`
 	Val int    `json:"val,omitempty"`
 	Dt  int    `json:"dt,omitempty"`
@@ -61,7 +62,7 @@ func genC09Chain(rt *rapid.T) c09cCase {
 	}
 	nops := rapid.IntRange(6, 30).Draw(rt, "nops")
 	for i := 0; i < nops; i++ {
-		switch gen.Pick(rt, "op", 60, 30, 10) {
+		switch gen.Pick(rt, "op", 60, 30, 10, 6) {
 		case 0:
 			ask := gen.Range(rt, "ask", 1, n)
 			if gen.Chance(rt, "toomany", 1, 12) {
@@ -72,6 +73,9 @@ func genC09Chain(rt *rapid.T) c09cCase {
 			c.Ops = append(c.Ops, c09cOp{K: "end", Dt: gen.OneOf(rt, "dt", 1, 1, 2, 7)})
 		case 2:
 			c.Ops = append(c.Ops, c09cOp{K: "activate", Val: gen.Uniform(rt, "val", n)})
+		case 3:
+			// governance changes the try count in flight, also to values just outside the valid range 1..100
+			c.Ops = append(c.Ops, c09cOp{K: "tries", Ask: gen.OneOf(rt, "newtries", 0, 0, 1, 2, 13, 100, 101)})
 		}
 	}
 	return c
@@ -127,6 +131,8 @@ func runC09Chain(c c09cCase) *pbt.Verdict {
 	var blockTxs [][]byte
 	count := uint64(0)
 	nontrivial, errs := false, 0
+	tries := c.Tries // the try count in force
+	triesChanged := false
 	flush := func(dt int) bool {
 		elOps, elPw := eligible() // state before the block (activations take effect when their tx runs)
 		res, err := ch.Block(blockTxs, time.Duration(dt)*time.Second)
@@ -177,13 +183,13 @@ func runC09Chain(c c09cCase) *pbt.Verdict {
 				v.Failf("harness", "drbg: %v", derr)
 				return false
 			}
-			idx := ref.ChooseSomeMaxWeightRef(d, elPw, p.op.Ask, int(c.Tries))
+			idx := ref.ChooseSomeMaxWeightRef(d, elPw, p.op.Ask, int(tries))
 			var want []string
 			for _, i := range idx {
 				want = append(want, elOps[i])
 			}
 			if fmt.Sprint(got) != fmt.Sprint(want) {
-				v.Failf("C09/committee", "request %d (ask %d, %d eligible, tries %d): chain chose %v, sampling specification gives %v", count, p.op.Ask, len(elOps), c.Tries, got, want)
+				v.Failf("C09/committee", "request %d (ask %d, %d eligible, tries %d): chain chose %v, sampling specification gives %v", count, p.op.Ask, len(elOps), tries, got, want)
 				return false
 			}
 			seen := map[string]bool{}
@@ -230,6 +236,29 @@ func runC09Chain(c c09cCase) *pbt.Verdict {
 			if !flush(o.Dt) {
 				return v
 			}
+		case "tries":
+			if len(blockTxs) > 0 && !flush(1) {
+				return v
+			}
+			np := ch.App.OracleKeeper.GetParams(ch.Ctx())
+			np.SamplingTryCount = uint64(o.Ask)
+			passed, gres, gerr := ch.GovExec(oracletypes.NewMsgUpdateParams(sim.GovAuthority(), np))
+			if gerr != nil && len(gres) == 1 && strings.Contains(gerr.Error(), "submit proposal failed") {
+				passed, gerr = false, nil
+				v.Count("tries_proposal_refused", 1)
+			}
+			if gerr != nil {
+				v.Failf("C09/finalize", "governance change of the try count to %d failed: %v", o.Ask, gerr)
+				return v
+			}
+			if passed {
+				// (a value outside the documented range 1..100 is not judged here: the committees chosen under it are)
+				if o.Ask < 1 || o.Ask > 100 {
+					v.Count("try_count_outside_1_100_accepted", 1)
+				}
+				tries = uint64(o.Ask)
+				triesChanged = true
+			}
 		}
 	}
 	flush(1)
@@ -239,6 +268,9 @@ func runC09Chain(c c09cCase) *pbt.Verdict {
 	}
 	if c.Tries > 1 {
 		v.Class("chain:tries>1")
+	}
+	if triesChanged {
+		v.Class("chain:try-count-changed-by-governance")
 	}
 	v.Count("chain_requests", int64(count))
 	return v
